@@ -1,5 +1,4 @@
-import QuillModel.Backend.UThread
-import QuillModel.Backend.UOps
+import QuillModel.Backend.UInvClosed
 import QuillModel.Uspsc.Capacity
 /-!
 # C03 / C20 / C07 / C09 for the unbounded-queue machine (`Backend/UQueue.lean`, `USched.lean`, `UOps.lean`)
@@ -7,25 +6,54 @@ import QuillModel.Uspsc.Capacity
 The per-thread queue of the two unbounded builds is a chain of bounded nodes run sequentially consistently; it is the
 machine `driver backend trace` executes for the UnboundedBlocking / UnboundedDropping builds of H2.
 
-Proved here, for every context state and every operation the machine performs on a context's chain (reservation with
-growth / refusal / throw, finish+commit, shrink, `prepare_read` with the switch of buffers, the F25 retry, `finish_read`,
-`commit_read`, `empty`), i.e. for every sequence of them: the context invariant `TI` — C03 conservation
-`accepted = popped ++ buf ++ qStmts` and the byte-exact coherence of `qStmts` with the chain — is kept; the emptiness
-test that the clean-up (C20) and the exit drain (C07) rest on is sound; C09: a reservation refused at the maximum
-capacity is granted at the next attempt after the drain.
-
-**Partial** (`…_partial`): the full statements quantify over `runOpsU u s0 ops` for every `ops : List UOp`. The walk of
-the control flow of `pollU` / `exitLoopU` / `applyFrontU` (the `Closed P` skeleton of the bounded bundle) is not redone
-for the U machine; what is proved is that every primitive through which that control flow touches a context keeps the
-invariant (`tryEnqU`, the steps of `readQueueU`, `ctxEmptyU`, `popStepU`, shrink), each for an arbitrary state.
+Proved here **for every operation list** `ops : List UOp` (frontend calls of any number of threads incl.
+`shrink_thread_local_queue`, polls carrying arbitrary injected frontend operations at every hook site, the exit drain), every
+`Cfg` with a non-empty header, every maximum capacity and both values of the F25 flag, from any state satisfying the
+invariant (a fresh one does): C03 conservation `accepted = popped ++ buf ++ qStmts` per context, the byte-exact coherence of
+`qStmts` with the chain of buffers, and the soundness of the emptiness test that the clean-up (C20) and the exit drain (C07)
+rest on. The proof is the skeleton `Backend/USkel.lean` (`runOpsU_closed`) instantiated with `US.UI`
+(`Backend/UInv.lean`, `UInvClosed.lean`). The per-operation theorems further down say what each queue operation does to a
+context. C09: a reservation refused at the maximum capacity is granted at the next attempt after the drain.
 -/
 namespace Backend
 open Backend.UQ Backend.PA Spsc
 
+/-- a freshly started system (no context, no actor) satisfies the invariant -/
+theorem C03U_fresh_state (s0 : BSt) (hh : 0 < s0.cfg.hdr) (ht : s0.ths = []) (ha : s0.actors = []) : US.UI s0 :=
+  ⟨hh, fun i => by rw [show s0.th i = default from by simp [BSt.th, ht]]; exact TI.default,
+   fun x hx => by rw [ha] at hx; cases hx⟩
+
+/-- **C03 (unbounded queue), conservation, every schedule.** In every state reachable by any operation list, every
+    context's accepted statements are exactly: those popped, then those in its transit buffer, then those still in
+    its chain of queue buffers — in issue order; nothing is lost or duplicated across growth, shrink requests, buffer
+    switches, refusals at the maximum capacity and rejected over-size records. -/
+theorem C03U_conservation (u : UP) (s0 : BSt) (h0 : US.UI s0) (ops : List UOp) (i : Nat) :
+    ((runOpsU u s0 ops).th i).accepted =
+      ((runOpsU u s0 ops).th i).popped ++ ((runOpsU u s0 ops).th i).buf ++ ((runOpsU u s0 ops).th i).qStmts :=
+  ((US.runOpsU_closed (US.UI.closed u) ops s0 h0).th i).cons
+
+/-- **The abstract record list is the byte-exact chain, every schedule.** The pending statements are, buffer by buffer
+    from the consumer's to the producer's, exactly the unread records of each bounded buffer (positions, published
+    writer position and record lengths as in `QCoh` of the bounded bundle). -/
+theorem C03U_queue_coherent (u : UP) (s0 : BSt) (h0 : US.UI s0) (ops : List UOp) (i : Nat) :
+    CCoh ((runOpsU u s0 ops).th i).q ((runOpsU u s0 ops).th i).more ((runOpsU u s0 ops).th i).qStmts :=
+  ((US.runOpsU_closed (US.UI.closed u) ops s0 h0).th i).coh
+
+/-- **C20 / C07 (unbounded queue): the emptiness test is sound in every reachable state.** -/
+theorem C20U_empty_test_sound_run (u : UP) (s0 : BSt) (h0 : US.UI s0) (ops : List UOp) (i : Nat)
+    (he : (ctxEmptyU (runOpsU u s0 ops) i).2 = true) :
+    ((runOpsU u s0 ops).th i).buf = [] ∧ ((runOpsU u s0 ops).th i).qStmts = [] ∧
+    ((runOpsU u s0 ops).th i).accepted = ((runOpsU u s0 ops).th i).popped := by
+  have h := (US.runOpsU_closed (US.UI.closed u) ops s0 h0).th i
+  simp only [ctxEmptyU, Bool.and_eq_true, List.isEmpty_iff] at he
+  have hq := h.empty_sound _ he.1
+  refine ⟨he.2, hq, ?_⟩
+  rw [h.cons, he.2, hq]; simp
+
 /-- **C03 (unbounded), primitives of the frontend.** A reservation attempt of the U machine (`tryEnqU`: granted in place,
     granted after growth, refused at the maximum, rejected over the maximum) keeps conservation and chain coherence of
     every context. -/
-theorem C03U_enqueue_keeps_partial (u : UP) (s : BSt) (h : ∀ i, TI (s.th i)) (ci : Nat) (st : Stmt) (hp : 0 < st.size) :
+theorem C03U_enqueue_keeps (u : UP) (s : BSt) (h : ∀ i, TI (s.th i)) (ci : Nat) (st : Stmt) (hp : 0 < st.size) :
     ∀ i, TI ((tryEnqU u s ci st).1.th i) := by
   unfold tryEnqU
   dsimp only
@@ -41,7 +69,7 @@ theorem tryEnqU_answer (u : UP) (s : BSt) (ci : Nat) (st : Stmt) :
   split <;> simp_all
 
 /-- **C03 (unbounded), `shrink_thread_local_queue`.** -/
-theorem C03U_shrink_keeps_partial (s : BSt) (h : ∀ i, TI (s.th i)) (ci want : Nat) :
+theorem C03U_shrink_keeps (s : BSt) (h : ∀ i, TI (s.th i)) (ci want : Nat) :
     ∀ i, TI ((s.setTh ci (fun t => uShrink s.cfg t want)).th i) :=
   forall_th_setTh s ci _ h (fun ht => ht.shrink s.cfg want)
 
@@ -49,7 +77,7 @@ theorem C03U_shrink_keeps_partial (s : BSt) (h : ∀ i, TI (s.th i)) (ci want : 
     without the F25 retry) keeps the invariant; when it offers a record, the first pending statement is the record at
     the consumer's read position, and reading it (`readOneU`) moves exactly that statement from the queue to the
     transit buffer, invariant kept. -/
-theorem C03U_read_keeps_partial (c : Cfg) (follow : Bool) (t : Th) (h : TI t) :
+theorem C03U_read_keeps (c : Cfg) (follow : Bool) (t : Th) (h : TI t) :
     TI (uRead c follow (t.more.length + 1) t).1 ∧
     ((uRead c follow (t.more.length + 1) t).2.1 = true → ∀ st rest, t.qStmts = st :: rest →
       TI { uFinishRead c (uRead c follow (t.more.length + 1) t).1 st.size with
@@ -69,7 +97,7 @@ theorem C03U_offer_means_pending (c : Cfg) (follow : Bool) (t : Th) (h : TI t)
   intro hn; rw [hn] at e
   exact this (List.append_eq_nil_iff.mp e.symm).1
 
-theorem C03U_commit_pop_keep_partial (c : Cfg) (t : Th) (h : TI t) :
+theorem C03U_commit_pop_keep (c : Cfg) (t : Th) (h : TI t) :
     TI (uCommitRead c t) ∧ TI (uEmpty c t).1 ∧
     ∀ st rest, t.buf = st :: rest → TI { t with buf := rest, popped := t.popped ++ [st] } :=
   ⟨h.commitRead c, h.emptyTest c, fun st rest hb => h.pop st rest hb⟩
@@ -152,5 +180,16 @@ example : (uPrepareWrite exCfg 4096 (mkTh exCfg 1) 700).2 = .grant ∧
 example : let t1 := uFinishCommit exCfg (uPrepareWrite exCfg 4096 (mkTh exCfg 1) 4000).1 4000
     t1.prod.cap = 2 ^ 12 ∧ (uPrepareWrite exCfg (2 ^ 12) t1 4000).2 = .null := by decide
 example : (uShrink exCfg (uPrepareWrite exCfg 4096 (mkTh exCfg 1) 700).1 256).more.map (·.cap) = [1024, 256] := by decide
+
+
+/-- non-vacuity of the run theorems: a fresh 512-byte / 4 KiB system; a thread logs 700 bytes (growth), shrinks, logs
+    again, the backend polls twice: the hypotheses hold and the context has popped what it accepted -/
+def exS0 : BSt := { cfg := exCfg, now := 1000, sinks := [{ sid := 0 }], lgs := [{ gid := 0, sinks := [0], level := 0 }], names := [(0, 0)] }
+def exOps : List UOp :=
+  [.front (.base (.tstart 1)), .front (.base (.log 1 0 4 700 true)), .front (.shrink 1 256),
+   .front (.base (.log 1 0 4 20 true)), .poll [], .poll [], .poll []]
+example : US.UI exS0 := C03U_fresh_state exS0 (by decide) rfl rfl
+example : ((runOpsU { qmax := 4096 } exS0 exOps).th 0).accepted.length = 2 ∧
+    ((runOpsU { qmax := 4096 } exS0 exOps).th 0).popped.length = 2 := by decide
 
 end Backend
